@@ -56,10 +56,6 @@ o.lines[i:i] = __import__('ann').ghost('''
 spec fn v_ok(v: &V, or: Range<usize>, nr: Range<usize>) -> bool {
     v.wf() && v.offset >= max_d_spec(or.end - or.start, nr.end - nr.start)
 }
-spec fn cq_inv<D: DiffHook>(d: D, d0: D, t0: Seq<Ev>, s: Seq<Ev>, rel: Rel, rs0: St, o0: int, n0: int, oc: int, nc: int) -> bool {
-    seg_rel(rel, s, o0, n0, oc, nc) && d.trace() == t0 + s && !d.failed() && d.relies() == d0.relies() && d.rely_rel() == d0.rely_rel()
-    && (d0.relies() ==> d.rely_st() == run_rel(d0.rely_rel(), rs0, s))
-}
 #[verifier::external_body]  // assumed contract (Myers' middle-snake theorem); bounded Kani stand-in, see DESIGN.md
 ''')
 o.before('{', '''
@@ -98,7 +94,7 @@ let ghost oe0 = old_range.end as int; let ghost ne0 = new_range.end as int;
 let ghost d0 = *d; let ghost t0 = d.trace(); let ghost rs0 = d.rely_st(); let ghost r1 = d.rely_rel();
 let ghost mut s: Seq<Ev> = Seq::empty();
 let ghost mut oc: int = o0; let ghost mut nc: int = n0;
-proof { lemma_seg_empty(rel, o0, n0); lemma_run_empty(r1, rs0); assert(t0 + s =~= t0); assert(cq_inv(*d, d0, t0, s, rel, rs0, o0, n0, oc, nc)); }
+proof { lemma_seg_empty(rel, o0, n0); lemma_run_empty(r1, rs0); assert(t0 + s =~= t0); assert(alg_inv(*d, d0, t0, s, rel, rs0, o0, n0, oc, nc)); }
 ''', start=c0, stmt=False, ind='    ')
 
 def call(o, start, pat, ev, adv, nth=1):
@@ -113,7 +109,7 @@ proof { let e = %s; if d0.relies() { pre_call(rel, r1, s, e, o0, n0, oc, nc, rs0
     j = o.stmt_end(i + len(pre))
     post = ann.ghost('''
 proof { let e = %s; post_call(rel, r1, s, e, o0, n0, oc, nc, rs0); assert((t0 + s).push(e) =~= t0 + s.push(e)); s = s.push(e); %s
-    assert(cq_inv(*d, d0, t0, s, rel, rs0, o0, n0, oc, nc)); }
+    assert(alg_inv(*d, d0, t0, s, rel, rs0, o0, n0, oc, nc)); }
 ''' % (ev, adv), ind)
     o.lines[j+1:j+1] = post
     return j + 1 + len(post)
@@ -144,7 +140,7 @@ proof {
     lemma_run_concat(r1, rs0, s, sa);
     assert((t0 + s) + sa + Seq::<Ev>::empty() =~= t0 + (s + sa));
     s = s + sa; oc = old_%(r)s.end as int; nc = new_%(r)s.end as int;
-    assert(cq_inv(*d, d0, t0, s, rel, rs0, o0, n0, oc, nc));
+    assert(alg_inv(*d, d0, t0, s, rel, rs0, o0, n0, oc, nc));
 }
 ''' % {'r': rng}, ind)
     o.lines[j+1:j+1] = post
@@ -157,7 +153,7 @@ p = call(o, p, 'd.equal(common_suffix.0, common_suffix.1, common_suffix_len)?;',
 i = o.find('Ok(())', p)
 o.lines[i:i] = __import__('ann').ghost('''
 proof {
-    assert(cq_inv(*d, d0, t0, s, rel, rs0, o0, n0, oc, nc));
+    assert(alg_inv(*d, d0, t0, s, rel, rs0, o0, n0, oc, nc));
     assert(oc == oe0 && nc == ne0);
     assert(t0 + s + Seq::<Ev>::empty() =~= t0 + s);
     assert(seg(old, new, s, o0, n0, oe0, ne0));
